@@ -779,6 +779,14 @@ class Grammar:
     def cpp_decls(self) -> str:
         """Namespace with the rule types, the action class templates and the id table."""
         ns = self.ns
+        # families named by an action< A, R... > rule exist even when no action was attached to them
+        named_fams = set()
+        for nd in self.nodes.values():
+            if nd.kind == 'action':
+                f0 = nd.params[0]
+                named_fams.add(f0[1] if isinstance(f0, (tuple, list)) else int(f0))
+        for f in sorted(named_fams - {0}):
+            self.fams.setdefault(f, {})
         o = [f"namespace {ns} {{", "struct tag {};"]
         o.append("template< typename R > struct ctl2;")
         for f in [0] + sorted(self.fams):
